@@ -6,7 +6,7 @@ from harness import c02
 from symx.runner import job
 
 META = dict(
-    bounds=dict(quick="dump_one of the 7 geometry/grid/integral formats on the C02 object menus: a deep snapshot of every "
+    bounds=dict(quick="dump_one of all 13 read/write formats on the C02 object menus (sizes <= 1000 atoms): a deep snapshot of every "
                       "attribute (array contents as terms, dictionary structure, identities of members) is equal before and "
                       "after the call for all symbolic values; the call returns the very object; write_input (gaussian, "
                       "orca) likewise; wavefunction formats with allow_changes: see jobs wfn-*",
